@@ -157,6 +157,28 @@ func c05Scenes(args []string) error {
 			emit(stat3("long-rod", fmtf(float64(ax)), rod, "mco", 1100))
 		}
 	}
+	// the UNIFORM renderer may not rely on the field being a distance: fields that over-estimate (a multiple of the
+	// distance, a non-uniformly scaled shape) have the same surface and must give the same closed mesh
+	{
+		sp, _ := sdf.Sphere3D(1)
+		rb, _ := sdf.Box3D(v3.Vec{X: 2, Y: 1.5, Z: 1}, 0.2)
+		over := []struct {
+			n string
+			s sdf.SDF3
+		}{
+			{"sphere-x1.05", scaled3{sp, 1 / 1.05}}, {"sphere-x3", scaled3{sp, 1.0 / 3}}, {"sphere-x40", scaled3{sp, 1.0 / 40}},
+			{"roundbox-stretched", sdf.Transform3D(rb, sdf.Scale3d(v3.Vec{X: 1, Y: 2, Z: 0.5}))},
+		}
+		for _, sh := range over {
+			for _, cells := range []int{21, 37, 60} {
+				emit(stat3(sh.n, fmtf(float64(cells)), sh.s, "mcu", cells))
+			}
+		}
+		// cell counts at and just below powers of two (the octree's top cube must still cover the 1 % margin)
+		for _, cells := range []int{16, 32, 63, 64} {
+			emit(stat3("pow2-sphere", fmtf(float64(cells)), sp, "mco", cells))
+		}
+	}
 	reps := 3
 	if tier() == "thorough" {
 		reps = 12
